@@ -1,0 +1,7 @@
+//go:build !verif
+// +build !verif
+
+package pubsub
+
+// vt is a verification trace point; it does nothing unless built with -tags verif.
+func (b *bus) vt(event string, kv ...interface{}) {}
